@@ -887,6 +887,59 @@ def r05f(P, R):
     _guarded(R, "R05-f", "anchor:union-members", _r05f_union, P, R)
 
 
+_KEYED = {"get", "get_mut", "get_key_value", "get_full", "remove", "swap_remove", "shift_remove", "entry"}
+
+
+def _made_of(fn, pv, expr):
+    """(parameter names, {(adt, field)}) the *value* of `expr` is made of.  Like Prov.data_atoms, but a keyed look-up
+    (`index.get(key)`) takes its value from the receiver only — the key selects — and a local collection is also made of what is
+    put into it after its creation (`m.entry(k).or_insert(v)`, `m.insert(k, v)`, `v.push(x)`)."""
+    grown = {}
+    for n in fn.walk():
+        if n.get("k") == "MethodCall" and n["args"] and n["method"] in ("or_insert", "or_insert_with", "insert", "push", "push_back", "extend"):
+            b = n["recv"]
+            while b is not None and b.get("k") in ("MethodCall", "AddrOf", "Unary", "Field", "DropTemps"):
+                b = b.get("recv") if b.get("k") == "MethodCall" else b.get("e")
+            if b is not None and b.get("k") == "Path" and "local" in b:
+                grown.setdefault(b["local"], []).append(n["args"][-1])
+    params, fields, seen, todo = set(), set(), set(), [expr]
+    while todo:
+        e = todo.pop()
+        if isinstance(e, list):
+            todo.extend(e)
+            continue
+        if not isinstance(e, dict):
+            continue
+        k = e.get("k")
+        if k == "Path":
+            lid = e.get("local")
+            if lid is not None and lid not in seen:
+                seen.add(lid)
+                if lid in pv.params:
+                    params.add(pv.params[lid])
+                for src, extra in pv.src.get(lid, []):
+                    fields |= {(x[1], x[2]) for x in extra if x[0] == "field"}
+                    if src is not None:
+                        todo.append(src)
+                todo.extend(grown.get(lid, []))
+            continue
+        if k == "MethodCall":
+            if e.get("method") in _KEYED:
+                todo.append(e["recv"])
+                continue
+            from prov import SELECTORS
+            if e.get("method") in SELECTORS:
+                todo.append(e["recv"])
+                todo.extend(a for a in e["args"] if a.get("k") != "Closure")
+                continue
+        if k == "Field" and e.get("adt"):
+            fields.add((norm(e["adt"]), e["field"]))
+        if k in ("Binding", "Wild", "TupleStruct", "PatExpr", "Tuple", "Or", "Ref", "Range", "Slice") or (k == "Struct" and "rest" in e):
+            continue
+        todo.extend(v for kk, v in e.items() if isinstance(v, (dict, list)))
+    return params, fields
+
+
 def _r05f_impl(P, R):
     """interface implementation rules: reachability, recursion discipline, and what each sub-rule is conditional on"""
     cvi = P.fn(CK + "type_system_checker::interfaces::check_valid_implementation")
@@ -939,12 +992,11 @@ def _r05f_impl(P, R):
     IFACE = TS + "InterfaceTypeDefinition"
     iface = [pv.params.get(p.get("local")) for p, t in zip(cvi.params, cvi.sig_inputs) if peel_ty(t) == IFACE and p.get("k") == "Binding"]
     for c in calls:
-        a1, a2 = pv.data_atoms(c["args"][1]), pv.data_atoms(c["args"][2])
         if len(iface) != 1:
             R.undecided("R05-f", "covariance-direction", "the interface parameter of %s was not identified" % cvi.path, loc=cvi.loc())
             continue
-        p1, p2 = {x[1] for x in a1 if x[0] == "param"}, {x[1] for x in a2 if x[0] == "param"}
-        ok = iface[0] not in p1 and bool(p1) and iface[0] in p2 and has_field(a2, IFACE, "fields")
+        (p1, _f1), (p2, f2) = _made_of(cvi, pv, c["args"][1]), _made_of(cvi, pv, c["args"][2])
+        ok = iface[0] not in p1 and bool(p1) and iface[0] in p2 and (IFACE, "fields") in f2
         R.check("R05-f", "covariance-direction", ok, "is_subtype(implementing field type, interface field type)",
                 "is_subtype is called with the interface's field type as the sub-type (direction of covariance reversed)", loc=cvi.loc())
     # argument invariance uses is_same
@@ -1010,7 +1062,13 @@ def _r11d(P, R):
     r11d(P, R)
 
 
-RULES = [("R05-a", r05a), ("R05-b", r05b), ("R05-c", r05c), ("R05-d", r05d), ("R05-e", r05e), ("R05-f", r05f), ("R11-d", _r11d)]
+def _r11e_builtins(P, R):
+    # built-in definitions reach the schema the checker sees (shared with C11)
+    from c11 import builtins_appended
+    builtins_appended(P, R)
+
+
+RULES = [("R05-a", r05a), ("R05-b", r05b), ("R05-c", r05c), ("R05-d", r05d), ("R05-e", r05e), ("R05-f", r05f), ("R11-d", _r11d), ("R11-e", _r11e_builtins)]
 EXPLANATION = (
     "Type-system `check`, structural clauses for all schemas. The checker function of each kind of node is located by role (first "
     "parameter type), and a clause about a kind looks at everything that function reaches without entering another kind's function, "
